@@ -72,7 +72,7 @@ BASE_SOURCES = [
     "def f():\n    yield 1", "async def f():\n    await x", "async def f():\n    yield 1", "f = lambda: 0", "f = lambda a, *b, c=1, **d: a",
     "class C:\n    def m(self): return __class__", "class C: pass", "x = 1", "x = [i for i in y]", "def f(a, b, c, d, e): return locals()",
     "from __future__ import annotations\ndef f(a: int): return a", "def f():\n    'doc'\n    return 1", "def f(a, /, b): return a",
-    "def f(a, b=2, /, c=3, *d, e, **g): return a", "def f(x):\n    return [x for _ in x]", "def f(x):\n    return lambda: x",
+    "def f(a, b=2, /, c=3, *d, e, **g): return a", "def f(a, b, /): return a", "def f(a, /):\n    yield a", "lambda a, /: a", "def f(*, k): return k\ndef g(*a): return a", "def f(x):\n    return [x for _ in x]", "def f(x):\n    return lambda: x",
     "import a.b as c", "def f():\n    try:\n        pass\n    finally:\n        pass", "def f():\n    with a: pass",
     "def f(a, b):\n    del a\n    return b", "def f():\n    global g\n    g = 1",
 ]
@@ -298,8 +298,12 @@ def run(shard):
             alts.append((bid, src, c, "argcount+1,nlocals+1", {"co_argcount": c.co_argcount + 1, "co_nlocals": c.co_nlocals + 1}))
         alts_all = list(alts)
         rng = H.rng_for(shard["seed"], "c11-headers")
-        rng.shuffle(alts)
-        alts = alts[:shard.get("n_headers", 1500)]
+        # alterations that clear or set the function flags (alone, as a pair, with the kind flags) are always included;
+        # the rest is a seeded sample
+        always = [x for x in alts if x[3] in ("flag^0x1", "flag^0x2", "flag^0x3", "flag^0x10", "flag^0x40", "flag+0xc", "flag^0xc")]
+        rest = [x for x in alts if x not in always]
+        rng.shuffle(rest)
+        alts = always + rest[:max(0, shard.get("n_headers", 1500) - len(always))]
         if shard.get("header_cases"):
             want = set((h["base"], h["alteration"]) for h in shard["header_cases"])
             alts = [x for x in alts_all if (x[0], x[3]) in want]
